@@ -47,7 +47,7 @@ HypNobleDomains == {1196573006, 1313817164}
 KnownHooks   == {"NONE", "H_NOOP", "H_DEFAULT", "H_IGP"}
 \* the interchain gas paymaster of the test-bed charges in IgpDenom; required payment = gas limit
 IgpDenom     == "ustake"
-Bytes32      == {"MINT_A", "MINT_B", "MINT_ZERO", "CALLER_A", "CALLER_B", "R_A", "R_B",
+Bytes32      == {"MINT_A", "MINT_B", "MINT_ZERO", "CALLER_A", "CALLER_B", "CALLER_ZERO", "R_A", "R_B",
                  "T1", "T2", "T_UNK", "H_UNK", "H_NOOP", "H_DEFAULT", "H_IGP"}
 BankBlocked  == {"dust"}               \* blocked_module_accounts_override (tracked ones)
 MaxFeeRecipients == 5
@@ -334,6 +334,7 @@ Forward(s, fw, coin, F) ==
      IF fw.dom = CctpNobleDomain \/ fw.mint = "NONE" THEN fail("cctp-attr-invalid")
      ELSE IF "cctpBurn" \in F THEN fire("fault", "cctpBurn")
      ELSE IF fw.mint = "MINT_ZERO" THEN fail("cctp-zero-mint")
+     ELSE IF fw.caller = "CALLER_ZERO" THEN fail("cctp-zero-caller")    \* present but all-zero: CCTP refuses it
      ELSE IF fw.mint \notin Bytes32 \/ fw.caller \notin Bytes32 \cup {"NONE"} THEN fail("cctp-bytes-len")
      ELSE IF fw.dom \notin CctpDomains THEN fail("cctp-unknown-domain")
      ELSE IF coin.d # MintingDenom THEN fail("cctp-denom")
@@ -792,7 +793,7 @@ ModelStep(pre, in) ==
       c(run, rr, p) == [run |-> run, ok |-> rr.ok, out |-> Outcome(p, rr)]
       \* control runs are fault-free
   IN [ pre |-> pre, in |-> in, post |-> r.st, ok |-> r.ok, panic |-> FALSE, why |-> r.why,
-       req |-> r.req,
+       req |-> r.req, reached |-> <<>>,
        ctl |-> [ nopause |-> c(isRecv /\ nof, Apply(NoPause(pre), in), NoPause(pre)),
                  clean   |-> c(isRecv /\ nof, Apply(Clean(pre), in), Clean(pre)),
                  noacts  |-> c(isRecv /\ nof /\ in.mk = "PAYLOAD" /\ Len(in.acts) > 0, Apply(pre, NoActs(in)), pre),
